@@ -99,3 +99,30 @@ Definition bool_spellings : list (list N * bool) :=
 (* what may follow a BOOL: nothing or a non-word character *)
 Definition not_word_next (E : rxenv) (rest : list N) : Prop :=
   match rest with [] => True | c :: _ => is_word E c = false end.
+
+(* ---- sequences of written values: each item is followed by whitespace; between two items the
+   whitespace must be non-empty (after the last item it may be empty) *)
+Fixpoint seps_ok {A} (items : list (A * list N)) : Prop :=
+  match items with
+  | [] => True
+  | (_, w) :: tl => match tl with [] => True | _ => w <> [] /\ seps_ok tl end
+  end.
+
+Definition items_text {A} (text : A -> list N) (items : list (A * list N)) : list N :=
+  flat_map (fun it => text (fst it) ++ snd it) items.
+
+(* a written number: an integer (decimal) or a float literal with '.' or exponent *)
+Inductive numlit :=
+| NLInt (z : Z)
+| NLFloat (so : option bool) (m : mantissa) (eo : option (bool * option bool * list N)).
+
+Definition numlit_ok (n : numlit) : bool :=
+  match n with
+  | NLInt _ => true
+  | NLFloat _ m eo => (mant_ok m && exp_ok eo && is_float_form m eo)%bool
+  end.
+
+Definition numlit_is_float (n : numlit) : bool := match n with NLInt _ => false | NLFloat _ _ _ => true end.
+
+Definition numlit_text (n : numlit) : list N :=
+  match n with NLInt z => dec_text z | NLFloat so m eo => float_chars so m eo end.
